@@ -373,6 +373,17 @@ def scenario_raw_string_delimiter(exe, workroot):
     return False, 'raw string literal unchanged'
 
 
+def scenario_comment_opener(exe, workroot):
+    """C02: removing the blanks around '/' must not create a comment opener"""
+    d = _tmp(workroot)
+    cfg = _cfg(d, 'sp_arith = remove\nsp_deref = remove\n')
+    for src in (b'int f(int a, int *p)\n{\n   return a / *p;\n}\n', b'int g(int a, int b)\n{\n   return a / /* c */ b;\n}\n'):
+        rc, out, err = run(exe, ['-c', cfg, '-l', 'C', '-q'], stdin=src)
+        if rc == 0 and (b'a/*p' in out or b'a//*' in out):
+            return True, "sp_arith=remove sp_deref=remove joins '/' with the next token into a comment opener: %r" % out.split(b'\n')[2]
+    return False, "'/' stays apart from a following '*' or '/'"
+
+
 def scenario_lang_leak(exe, workroot):
     d = _tmp(workroot)
     a, b = os.path.join(d, 'A.c'), os.path.join(d, 'B.c')
